@@ -79,6 +79,14 @@ Example T12d_example :
   check_panel G (plug [(HUn PanelTraj, [], []); (HBin Times, [], [EVar "x1"])] (EVar "x2")) = [].
 Proof. vm_compute. split; reflexivity. Qed.
 
+(* KNOWN FINDING (open): on panel data the constructor applies this rule to a formula given as a single
+   Expression only; formulas given in a dictionary are accepted with variables outside the trajectory *)
+Theorem T12d_dict_formulas_refuted :
+  exists db e, d_panel db = true /\ In "x1" (check_panel G e) /\
+               spec_errors G db e <> [] /\ spec_errors_dict G db e = [].
+Proof. exact var_outside_trajectory_dict_refuted. Qed.
+Print Assumptions T12d_dict_formulas_refuted.
+
 (* the same four faults in the verdict of BIOGEME(database, formula) *)
 Theorem T12abcd_spec_refuses : forall db C,
   ctx_wf C = true ->
@@ -190,6 +198,14 @@ Theorem T12j_read_propagates : forall Phi C x,
   forall en, e_var en x = None -> evalX Phi (plug C (EVar x)) en = XNaN.
 Proof. exact read_propagates. Qed.
 Print Assumptions T12j_read_propagates.
+
+(* KNOWN FINDING (open, engine side): the strict rule fails for the linear utility as the engine evaluates it
+   (a term whose variable holds the missing-data code is dropped); T12j_read_propagates is about evalX, whose
+   linear utility is strict: the stream `missing` reports the difference as a known finding *)
+Theorem T12j_linear_utility_swallows_refuted :
+  exists b, xlinutil [XR b; XNaN] = XNaN /\ xlinutil_engine [XR b; XNaN] = XR 0.
+Proof. exact linear_utility_swallows_refuted. Qed.
+Print Assumptions T12j_linear_utility_swallows_refuted.
 
 (* ... and, at the four lazy operators, has no influence in a position that is not read for this
    observation, while it fails in a position that is read *)
